@@ -159,6 +159,9 @@ func c03Child(dir string, seed uint64, tier string) {
 			if k == 0 {
 				kind = "post-count-amplification" // count fields far above what the data holds, in every batch
 			}
+			if k == 1 {
+				kind = "post-unknown-ids" // well-formed requests naming chats / users / articles that do not exist
+			}
 			kindMu.Lock()
 			kindOf[src] = kind
 			kindMu.Unlock()
@@ -235,6 +238,16 @@ func c03Child(dir string, seed uint64, tier string) {
 					c.Write(refEncode(202, 61, RField{201, []byte("file.bin")}, RField{202, path}))
 					c.Write(refEncode(370, 62, RField{325, append([]byte{0xff, 0xff}, item...)}))
 					c.Write(refEncode(205, 63, RField{201, []byte("d")}, RField{202, path}))
+				case "post-unknown-ids":
+					c.Write(handshakeBytes)
+					c.Write(login)
+					t.waitReply(1, 2*time.Second)
+					chat := r.Bytes(4)
+					for i, typ := range []int{115, 116, 120, 114, 105, 113, 108, 303, 110} {
+						c.Write(refEncode(typ, uint32(70+i), RField{114, chat}, RField{103, []byte{0x7f, byte(r.Intn(256))}}, RField{101, []byte("x")}, RField{115, []byte("s")}))
+					}
+					c.Write(refEncode(112, 90, RField{103, []byte{0, 1}}))
+					t.waitReply(90, 500*time.Millisecond)
 				case "xfer-random":
 					c.Write(r.Bytes(r.Pick(3, 16, 17, 200)))
 				case "xfer-valid-ref-garbage", "xfer-upload-declared-size":
@@ -305,6 +318,23 @@ func c03Child(dir string, seed uint64, tier string) {
 	time.Sleep(3600 * time.Millisecond)
 	if !ping() {
 		res.SentinelOK = false
+	}
+	// the sentinel can still open a private chat (with itself) and post to the board
+	for _, cc := range env.Srv.ClientMgr.List() {
+		if cc.Account != nil && cc.Account.Login == "sentinel" {
+			nextID++
+			sc.Write(refEncode(112, nextID, RField{103, cc.ID[:]}))
+			if !sent.waitReply(nextID, 3*time.Second) {
+				res.SentinelOK = false
+				res.Note += "sentinel got no reply to invite-new-chat; "
+			}
+			nextID++
+			sc.Write(refEncode(103, nextID, RField{101, []byte("still here")}))
+			if !sent.waitReply(nextID, 3*time.Second) {
+				res.SentinelOK = false
+				res.Note += "sentinel got no reply to a board post; "
+			}
+		}
 	}
 	res.RegistryCount = len(env.Srv.ClientMgr.List())
 	for _, cc := range env.Srv.ClientMgr.List() {
